@@ -164,21 +164,17 @@ def run_once(scn, prop: str, family: str, idx: int, ch: Chooser, tier: str) -> d
 # --------------------------------------------------------------------------- shrinker
 
 
-def shrink(scn, prop, family, idx, tier, values, check_name, max_runs=120, max_wall=90.0):
-    """Delta-debug the integer list while the same check of the same property fails."""
+def shrink(scn, prop, family, idx, tier, values, check_name, max_runs=200, max_wall=120.0):
+    """Delta-debug the integer list while the same check of the same property fails.
+
+    A candidate is accepted only if the trace *actually drawn* by its run is strictly simpler
+    than the best so far by (number of draws, sum of values): changing an early choice can
+    make the run draw more, and such candidates are rejected, so shrinking is monotone."""
     t0 = time.monotonic()
     runs = [0]
-    best = list(values)
 
-    def fails(cand):
-        if runs[0] >= max_runs or time.monotonic() - t0 > max_wall:
-            return False
-        runs[0] += 1
-        try:
-            r = run_once(scn, prop, family, idx, Chooser(values=cand), tier)
-        except Exception:
-            return False  # a harness error during shrinking never counts
-        return r["violation"] is not None and r["violation"]["check"] == check_name
+    def measure(vals):
+        return (len(vals), sum(vals))
 
     def strip(c):
         c = list(c)
@@ -186,17 +182,39 @@ def shrink(scn, prop, family, idx, tier, values, check_name, max_runs=120, max_w
             c.pop()
         return c
 
-    best = strip(best)
+    best = strip(values)
+    best_m = measure(best)
+
+    def attempt(cand):
+        """Run cand; on success replace best by the trace the run really drew."""
+        nonlocal best, best_m
+        if runs[0] >= max_runs or time.monotonic() - t0 > max_wall:
+            return False
+        runs[0] += 1
+        try:
+            r = run_once(scn, prop, family, idx, Chooser(values=cand), tier)
+        except Exception:
+            return False  # a harness error during shrinking never counts
+        if r["violation"] is None or r["violation"]["check"] != check_name:
+            return False
+        got = strip(r["values"])
+        m = measure(got)
+        if m < best_m:
+            best, best_m = got, m
+            return True
+        return False
+
     # 1. truncate the tail (zeros are implied once the trace is exhausted)
     lo, hi = 0, len(best)
+    cut = None
     while lo < hi and runs[0] < max_runs:
         mid = (lo + hi) // 2
-        if fails(best[:mid]):
-            hi = mid
+        base = list(best)
+        if attempt(base[:mid]):
+            hi = min(mid, len(best))
+            lo = 0 if lo > hi else lo
         else:
             lo = mid + 1
-    if hi < len(best) and fails(best[:hi]):
-        best = strip(best[:hi])
     changed = True
     while changed and runs[0] < max_runs and time.monotonic() - t0 <= max_wall:
         changed = False
@@ -207,29 +225,26 @@ def shrink(scn, prop, family, idx, tier, values, check_name, max_runs=120, max_w
             while i < len(best) and runs[0] < max_runs:
                 if any(best[i : i + size]):
                     cand = best[:i] + [0] * len(best[i : i + size]) + best[i + size :]
-                    if fails(cand):
-                        best = strip(cand)
+                    if attempt(cand):
                         changed = True
                         continue
                 cand = best[:i] + best[i + size :]
-                if len(cand) < len(best) and fails(cand):
-                    best = strip(cand)
+                if len(cand) < len(best) and any(best[i : i + size]) and attempt(cand):
                     changed = True
                     continue
                 i += size
             size //= 2
         # 4. halve / decrement single values
-        for i in range(len(best)):
-            if runs[0] >= max_runs:
-                break
+        i = 0
+        while i < len(best) and runs[0] < max_runs:
             v = best[i]
-            for nv in (v // 2, v - 1):
+            for nv in (0, v // 2, v - 1):
                 if 0 <= nv < v:
                     cand = best[:i] + [nv] + best[i + 1 :]
-                    if fails(cand):
-                        best = strip(cand)
+                    if attempt(cand):
                         changed = True
                         break
+            i += 1
     return best, runs[0]
 
 
@@ -292,10 +307,15 @@ def match_known(prop, viol, known):
 # --------------------------------------------------------------------------- worker side
 
 _WORKER = {}
+import multiprocessing as _mp
+
+_STOP_LOCK = _mp.get_context("fork").Lock()
 
 
-def _worker_init(prop, tier):
+def _worker_init(prop, tier, stop_event=None):
     import faulthandler
+
+    _WORKER["stop"] = stop_event
 
     faulthandler.enable()
     from . import registry
@@ -305,33 +325,52 @@ def _worker_init(prop, tier):
     _WORKER["mod"] = mod
 
 
+def run_and_shrink(scn, prop, family, idx, tier, ch, do_shrink=True):
+    """One run in a pool worker; the first worker that sees a violation minimises it."""
+    mod = _WORKER.get("mod")
+    stop = _WORKER.get("stop")
+    r = run_once(scn, prop, family, idx, ch, tier)
+    first = False
+    if r["violation"] is not None:
+        if stop is not None:
+            with _STOP_LOCK:
+                first = not stop.is_set()
+                stop.set()
+        else:
+            first = True
+    if r["violation"] is not None and do_shrink and first:
+        mr, mw = getattr(mod, "SHRINK", (200, 120.0))
+        mv, nruns = shrink(scn, prop, family, idx, tier, r["values"], r["violation"]["check"], mr, mw)
+        m = run_once(scn, prop, family, idx, Chooser(values=mv), tier)
+        if m["violation"] is None or m["violation"]["check"] != r["violation"]["check"]:
+            m = run_once(scn, prop, family, idx, Chooser(values=r["values"]), tier)
+            nruns = -nruns
+        if m["violation"] is not None:
+            r["minimized"] = m
+        r["shrink_runs"] = nruns
+    elif r["violation"] is None and idx % 97 != 0:
+        # keep results light
+        r["events_head"] = r["events_head"][:0]
+        r["values"] = []
+        r["labels"] = []
+    return r
+
+
 def _worker_run(args):
     prop, family, idxs, verif_seed, tier, do_shrink = args
     import faulthandler
 
     mod = _WORKER["mod"]
     scn = mod.FAMILIES[family]
+    stop = _WORKER.get("stop")
     out = []
     for idx in idxs:
-        faulthandler.dump_traceback_later(300, exit=True)
+        if stop is not None and stop.is_set():
+            break
+        faulthandler.dump_traceback_later(900, exit=True)
         try:
             ch = Chooser(seed=derive_seed(verif_seed, prop, family, idx))
-            r = run_once(scn, prop, family, idx, ch, tier)
-            if r["violation"] is not None and do_shrink:
-                mv, nruns = shrink(scn, prop, family, idx, tier, r["values"], r["violation"]["check"])
-                m = run_once(scn, prop, family, idx, Chooser(values=mv), tier)
-                if m["violation"] is None or m["violation"]["check"] != r["violation"]["check"]:
-                    m = run_once(scn, prop, family, idx, Chooser(values=r["values"]), tier)
-                    nruns = -nruns
-                r["minimized"] = m
-                r["shrink_runs"] = nruns
-            else:
-                # keep results light
-                if idx % 97 != 0:
-                    r["events_head"] = r["events_head"][:0]
-                    r["values"] = []
-                    r["labels"] = []
-            out.append(r)
+            out.append(run_and_shrink(scn, prop, family, idx, tier, ch, do_shrink))
         except Exception:
             out.append({"idx": idx, "family": family, "harness_error": traceback.format_exc()})
         finally:
@@ -351,24 +390,29 @@ def nworkers():
 
 
 def run_batch(prop, plan, verif_seed, tier, wall_budget, stop_on_violation=True):
-    """plan: list of (family, n_runs).  Returns (results, harness_errors, wall).
+    """plan: list of (family, n_runs, chunk).  Returns (results, harness_errors, wall).
 
     Run indices are dealt in small chunks; what a run does depends only on
     (verif_seed, prop, family, idx)."""
-    import multiprocessing as mp
-    from concurrent.futures import ProcessPoolExecutor, wait, FIRST_COMPLETED
-
-    t0 = time.monotonic()
     tasks = []
     for family, n, chunk in plan:
         for s in range(0, n, chunk):
             tasks.append((prop, family, list(range(s, min(n, s + chunk))), verif_seed, tier, True))
     # interleave families so a wall cut-off still samples all of them
     tasks.sort(key=lambda t: (t[2][0] / max(1, next(n for f, n, c in plan if f == t[1])), t[1]))
+    return run_tasks(prop, tier, tasks, _worker_run, wall_budget, stop_on_violation)
+
+
+def run_tasks(prop, tier, tasks, task_fn, wall_budget, stop_on_violation=True):
+    import multiprocessing as mp
+    from concurrent.futures import ProcessPoolExecutor, wait, FIRST_COMPLETED
+
+    t0 = time.monotonic()
     results, herrs = [], []
     nw = nworkers()
     ctx = mp.get_context("fork")
-    with ProcessPoolExecutor(max_workers=nw, mp_context=ctx, initializer=_worker_init, initargs=(prop, tier)) as ex:
+    stop_event = ctx.Event() if stop_on_violation else None
+    with ProcessPoolExecutor(max_workers=nw, mp_context=ctx, initializer=_worker_init, initargs=(prop, tier, stop_event)) as ex:
         pending = set()
         it = iter(tasks)
         stop = False
@@ -379,13 +423,13 @@ def run_batch(prop, plan, verif_seed, tier, wall_budget, stop_on_violation=True)
                     t = next(it)
                 except StopIteration:
                     return
-                pending.add(ex.submit(_worker_run, t))
+                pending.add(ex.submit(task_fn, t))
 
         feed()
         while pending:
-            done, _ = wait(pending, timeout=600, return_when=FIRST_COMPLETED)
+            done, _ = wait(pending, timeout=1200, return_when=FIRST_COMPLETED)
             if not done:
-                herrs.append("pool made no progress for 600 s")
+                herrs.append("pool made no progress for 1200 s")
                 break
             for f in done:
                 pending.discard(f)
